@@ -24,24 +24,24 @@ theorem noNone_jump (o : Op) (l : Nat) : NoNone [LItem.ljump o (some l)] := by
 
 /-- exits of a loop body from the exits around the loop -/
 theorem exitsOK_push {cx : Cx} {m j : Nat} {s : St} {env : Src.Env} (hex : ExitsOK cx m j s env) (cl bl : Nat) {c k : Nat}
-    (h1 : R2 cx m j (target cx.rs cl) c) (h2 : R2 cx m j (target cx.rs bl) k) {sa : St} (hl : sa.loops = (cl, bl) :: s.loops)
+    (h1 : R2 cx m j (target cx.rs (cx.cp.σ cl)) c) (h2 : R2 cx m j (target cx.rs (cx.cp.σ bl)) k) {sa : St} (hl : sa.loops = (cl, bl) :: s.loops)
     (hc : sa.cases = s.cases) : ExitsOK cx m j sa (loopEnv env c k) := by
-  refine ⟨fun cl' bl' rest hs => ?_, fun e rest hs => hex.case e rest (by rw [← hc]; exact hs), hex.labs⟩
+  refine ⟨fun cl' bl' rest hs => ?_, fun e rest hs => hex.case e rest (by rw [← hc]; exact hs), hex.labs, hex.ret⟩
   rw [hl] at hs
   simp only [List.cons.injEq, Prod.mk.injEq] at hs
   obtain ⟨⟨rfl, rfl⟩, _⟩ := hs
   exact ⟨c, k, rfl, rfl, h1, h2⟩
 
-theorem tr_forever (fuel : Nat) (env : Src.Env) (B : Src.Stmts) (k : Nat) (b : Src.B) :
-    Src.tr fuel [] env (.forever B) k b =
-      ((Src.trStmts fuel [] (loopEnv env (tbl b).length k) B (tbl b).length (b.push (.halt (evInvalid "loop head"))).1).1.set (tbl b).length
-        (.silent (Src.trStmts fuel [] (loopEnv env (tbl b).length k) B (tbl b).length (b.push (.halt (evInvalid "loop head"))).1).2),
+theorem tr_forever (fuel : Nat) (sm : List Src.Macro) (env : Src.Env) (B : Src.Stmts) (k : Nat) (b : Src.B) :
+    Src.tr fuel sm env (.forever B) k b =
+      ((Src.trStmts fuel sm (loopEnv env (tbl b).length k) B (tbl b).length (b.push (.halt (evInvalid "loop head"))).1).1.set (tbl b).length
+        (.silent (Src.trStmts fuel sm (loopEnv env (tbl b).length k) B (tbl b).length (b.push (.halt (evInvalid "loop head"))).1).2),
        (tbl b).length) := by
   rw [Src.tr]; rfl
 
 theorem forever_pm (cx : Cx) (fuel : Nat) (env : Src.Env) (he : EnvOK cx env) (lb : Nat) (body : Stmts) (bodyM : M (List LItem))
-    (hBody : ∀ env', EnvOK cx env' → PM cx bodyM (fun k b => Src.trStmts fuel [] env' (toSrcStmts body) k b) env') :
-    PM cx (foreverOf lb bodyM) (fun k b => Src.tr fuel [] env (.forever (toSrcStmts body)) k b) env := by
+    (hBody : ∀ env', EnvOK cx env' → PM cx bodyM (fun k b => Src.trStmts fuel cx.sm env' (toSrcStmts body) k b) env') :
+    PM cx (foreverOf lb bodyM) (fun k b => Src.tr fuel cx.sm env (.forever (toSrcStmts body)) k b) env := by
   intro s items s' h
   simp only [foreverOf, bind_ok, pushLoop_ok, popLoop_ok, pure_ok] at h
   obtain ⟨u1, sa, h1, blk, sc, h2, jj, sd, h3, u2, se, h4, h5⟩ := h
@@ -52,14 +52,14 @@ theorem forever_pm (cx : Cx) (fuel : Nat) (env : Src.Env) (he : EnvOK cx env) (l
   obtain ⟨e3, rfl⟩ := genJump_stk h3
   obtain ⟨ops, sb, sL, eB, hrun, e2, hitems⟩ := loop_block_shape h2
   have hP : ∀ env', EnvOK cx env' →
-      PieceOK cx ops (s.pushLoop (lb + 1, lb + 2)) sb (fun k b => Src.trStmts fuel [] env' (toSrcStmts body) k b) env' :=
+      PieceOK cx ops (s.pushLoop (lb + 1, lb + 2)) sb (fun k b => Src.trStmts fuel cx.sm env' (toSrcStmts body) k b) env' :=
     fun env' he' => hBody env' he' _ _ _ hrun
   have hP0 := hP env he
   have hstkL : sd.loops = (lb + 1, lb + 2) :: s.loops := by rw [e3.1, e2.1, hP0.loops]; rfl
   have hstkC : sd.cases = s.cases := by rw [e3.2, e2.2, hP0.cases]; rfl
   rw [hitems]
-  have htr := fun k b => tr_forever fuel env (toSrcStmts body) k b
-  have hgrow : ∀ k b, Grow cx.Z b (Src.tr fuel [] env (.forever (toSrcStmts body)) k b).1 := by
+  have htr := fun k b => tr_forever fuel cx.sm env (toSrcStmts body) k b
+  have hgrow : ∀ k b, Grow cx.Z b (Src.tr fuel cx.sm env (.forever (toSrcStmts body)) k b).1 := by
     intro k b
     rw [htr]
     exact ((Grow.push b _).trans ((hP _ (plainEnv_loopEnv he _ _)).grow _ _)).set_ge (Nat.le_refl _) _
@@ -89,29 +89,29 @@ theorem forever_pm (cx : Cx) (fuel : Nat) (env : Src.Env) (he : EnvOK cx env) (l
   have hPe := hP (loopEnv env (tbl b).length k) (plainEnv_loopEnv he _ _)
   obtain ⟨hNh, hagB⟩ := agree_set hag (hPe.grow _ _)
   -- positions
-  have hit0 : itemAt cx.rs ⟨r, i0⟩ = some (.label (lb + 1) false) := by simpa using hp.item (d := 0) (by simp)
-  have htgt1 : target cx.rs (lb + 1) = ⟨r, i0⟩ := by
+  have hit0 : ItemC cx.cp cx.rs ⟨r, i0⟩ (.label (lb + 1) false) := by simpa using hp.item (d := 0) (by simp)
+  have htgt1 : target cx.rs (cx.cp.σ (lb + 1)) = ⟨r, i0⟩ := by
     simpa using hp.resolve cx.hlab (d := 0) (l := lb + 1) (nm := false) (by simp)
-  have hpBlk : Placed cx.rs r (i0 + 1) ([LItem.label sL false] ++ ops ++ [LItem.label eB false] ++
+  have hpBlk : Placed cx.cp cx.rs r (i0 + 1) ([LItem.label sL false] ++ ops ++ [LItem.label eB false] ++
       [LItem.ljump ⟨sc.opc + 1, Gen.op_jump, []⟩ (some (lb + 1)), LItem.label (lb + 2) false]) := by
-    have : Placed cx.rs r i0 ([LItem.label (lb + 1) false] ++ ([LItem.label sL false] ++ ops ++ [LItem.label eB false] ++
+    have : Placed cx.cp cx.rs r i0 ([LItem.label (lb + 1) false] ++ ([LItem.label sL false] ++ ops ++ [LItem.label eB false] ++
       [LItem.ljump ⟨sc.opc + 1, Gen.op_jump, []⟩ (some (lb + 1)), LItem.label (lb + 2) false])) := by
       simpa [List.append_assoc] using hp
     simpa using this.right
-  have hitJ : itemAt cx.rs ⟨r, i0 + ops.length + 3⟩ = some (.ljump ⟨sc.opc + 1, Gen.op_jump, []⟩ (some (lb + 1))) := by
+  have hitJ : ItemC cx.cp cx.rs ⟨r, i0 + ops.length + 3⟩ (.ljump ⟨sc.opc + 1, Gen.op_jump, []⟩ (some (lb + 1))) := by
     have e : i0 + ops.length + 3 = i0 + ([LItem.label (lb + 1) false] ++ ([LItem.label sL false] ++ ops ++ [LItem.label eB false])).length := by
       simp; omega
     rw [e]
     exact Placed.here (post := [LItem.label (lb + 2) false]) (by simpa [List.append_assoc] using hp)
-  have hpE : Placed cx.rs r i0 (([LItem.label (lb + 1) false] ++ ([LItem.label sL false] ++ ops ++ [LItem.label eB false]) ++
+  have hpE : Placed cx.cp cx.rs r i0 (([LItem.label (lb + 1) false] ++ ([LItem.label sL false] ++ ops ++ [LItem.label eB false]) ++
       [LItem.ljump ⟨sc.opc + 1, Gen.op_jump, []⟩ (some (lb + 1))]) ++ LItem.label (lb + 2) false :: []) := by
     simpa [List.append_assoc] using hp
   have eE : i0 + ([LItem.label (lb + 1) false] ++ ([LItem.label sL false] ++ ops ++ [LItem.label eB false]) ++
       [LItem.ljump ⟨sc.opc + 1, Gen.op_jump, []⟩ (some (lb + 1))]).length = i0 + ops.length + 4 := by
     simp; omega
-  have hitE : itemAt cx.rs ⟨r, i0 + ops.length + 4⟩ = some (.label (lb + 2) false) := by
+  have hitE : ItemC cx.cp cx.rs ⟨r, i0 + ops.length + 4⟩ (.label (lb + 2) false) := by
     rw [← eE]; exact hpE.here
-  have htgt2 : target cx.rs (lb + 2) = ⟨r, i0 + ops.length + 4⟩ := by
+  have htgt2 : target cx.rs (cx.cp.σ (lb + 2)) = ⟨r, i0 + ops.length + 4⟩ := by
     rw [← eE]; exact hpE.lbl cx.hlab
   have hlen : ([LItem.label (lb + 1) false] ++ ([LItem.label sL false] ++ ops ++ [LItem.label eB false]) ++
       [LItem.ljump ⟨sc.opc + 1, Gen.op_jump, []⟩ (some (lb + 1)), LItem.label (lb + 2) false]).length = ops.length + 5 := by
@@ -119,13 +119,13 @@ theorem forever_pm (cx : Cx) (fuel : Nat) (env : Src.Env) (he : EnvOK cx env) (l
   rw [hlen] at hend
   -- the body, given the loop head
   have hbodyAt : ∀ m j, ExitsOK cx m j s env ∧ R2 cx m j ⟨r, i0 + (ops.length + 5)⟩ k → R2 cx m j ⟨r, i0⟩ (tbl b).length →
-      R2 cx m j ⟨r, i0 + 1⟩ (Src.trStmts fuel [] (loopEnv env (tbl b).length k) (toSrcStmts body) (tbl b).length
+      R2 cx m j ⟨r, i0 + 1⟩ (Src.trStmts fuel cx.sm (loopEnv env (tbl b).length k) (toSrcStmts body) (tbl b).length
         (b.push (.halt (evInvalid "loop head"))).1).2 ∧
       LabExport cx (loopEnv env (tbl b).length k) m j (b.push (.halt (evInvalid "loop head"))).1
-        (Src.trStmts fuel [] (loopEnv env (tbl b).length k) (toSrcStmts body) (tbl b).length
+        (Src.trStmts fuel cx.sm (loopEnv env (tbl b).length k) (toSrcStmts body) (tbl b).length
           (b.push (.halt (evInvalid "loop head"))).1).1 := by
     intro m j hyp hPh
-    have hbrk : R2 cx m j (target cx.rs (lb + 2)) k := by
+    have hbrk : R2 cx m j (target cx.rs (cx.cp.σ (lb + 2))) k := by
       rw [htgt2]
       refine R2.silL (lab_label hitE) ?_
       have e : (⟨r, i0 + ops.length + 4⟩ : LPos).next = ⟨r, i0 + (ops.length + 5)⟩ := by
